@@ -193,6 +193,8 @@ class ScopedProtocol:
 
     def expect(self, verifier, op):
         U = verifier.env.sources["a"]
+        if not U.has_aclose:
+            return []       # a plain iterable: the library closes only its own wrapper; items/ends are compared by the events
         if op.startswith("exit:"):
             return [("closed-exactly-once-at-exit", U.closes == 1, f"leaving the outermost scope closed the underlying iterator {U.closes} times")]
         if op == "next(S0)":
@@ -203,16 +205,18 @@ class ScopedProtocol:
 def _borrow_jobs():
     AT, RA = "asynctools", "ref_asynctools"
     out = []
-    for kind in ("gen", "class"):
+    for kind in ("gen", "class", "sync"):
         def mk(ctx, env, kind=kind):
-            s = env.source("a", has_aclose=True, kind=kind)
+            s = env.source("a", has_aclose=(kind != "sync"), kind=kind)
             return dict(iargs=[s], rargs=[s])
         def pre(verifier, impl_i, ref_i):
             pass
-        out.append(Job(f"borrow[{kind}]", (AT, "borrow"), (RA, "borrow"), mk, kind="protocol", props=("C07",), faults=False, closes=False, release=False,
+        if kind != "sync":
+          out.append(Job(f"borrow[{kind}]", (AT, "borrow"), (RA, "borrow"), mk, kind="protocol", props=("C07",), faults=False, closes=False, release=False,
                        opts={"protocol": BorrowProtocol(), "handles": {"mk": ((AT, "borrow"), (RA, "borrow")), "tool": (("builtins", "enumerate"), None)},
                              "under_contract": [(AT, "borrow"), (AT, "_BorrowedAsyncIterator")]}))
         out.append(Job(f"scoped_iter[{kind}]", (AT, "scoped_iter"), (RA, "scoped_iter"), mk, kind="protocol", props=("C08", "C18"), faults=False, closes=False, release=False,
+                       overrides="none",
                        opts={"protocol": ScopedProtocol(), "handles": {"mk": ((AT, "scoped_iter"), (RA, "scoped_iter")), "tool": (("builtins", "enumerate"), None)},
                              "under_contract": [(AT, "scoped_iter"), (AT, "_ScopedAsyncIteratorContext"), (AT, "_ScopedAsyncIterator"), (AT, "_BorrowedAsyncIterator")]}))
     return out
